@@ -216,18 +216,23 @@ def base_diff(
                 diff_pre=diff_pre[row]["match"],
             )))
 
-    old_indexes = {row: index for (index, row) in enumerate(old)}
+    # a row has moved if its place among the rows that stay has changed;
+    # removing an earlier row does not move the ones after it
+    old_ranks = {row: rank for (rank, row) in enumerate(row for row in old if row in new)}
     block_in_disorder = False
     parent_op = pops[-1]
+    rank = 0
     for (index, row) in enumerate(new):
         if row not in old:
             block_in_disorder = True
             op = Op.ADDED
-        elif block_in_disorder or index != old_indexes[row]:
+        elif block_in_disorder or rank != old_ranks[row]:
             block_in_disorder = True
             op = (Op.MOVED if not moved_to_affected else parent_op)
         else:
             op = parent_op
+        if row in old:
+            rank += 1
         children = call_diff_logic(diff_pre[row]["subtree"], old.get(row, {}), new[row], pops + (op,))
         diff_indexed.append((index, DiffItem(
             op=op,
